@@ -26,6 +26,30 @@ RespIdx == {x \in SLs \X RHs \X RH2s \X BLANKs \X RBs :
               \/ (x[3] = 1 /\ x[4] = 1)}
 RespWire(x) == SL[x[1]] \o RH[x[2]] \o RH2[x[3]] \o BLANK[x[4]] \o RB[x[5]]
 
+(* requests with a gzip body: POST, Content-Encoding: gzip, the member GzTable[g].enc framed by
+   Content-Length ("cl") or as two chunks ("ch") *)
+Digit1(d) == 48 + d
+DecStr(n) == IF n < 10 THEN <<Digit1(n)>>
+             ELSE IF n < 100 THEN <<Digit1(n \div 10), Digit1(n % 10)>>
+             ELSE IF n < 1000 THEN <<Digit1(n \div 100), Digit1((n \div 10) % 10), Digit1(n % 10)>>
+             ELSE <<Digit1(n \div 1000), Digit1((n \div 100) % 10), Digit1((n \div 10) % 10), Digit1(n % 10)>>
+HexD(d) == IF d < 10 THEN 48 + d ELSE 87 + d
+HexStr(n) == IF n < 16 THEN <<HexD(n)>>
+             ELSE IF n < 256 THEN <<HexD(n \div 16), HexD(n % 16)>>
+             ELSE <<HexD(n \div 256), HexD((n \div 16) % 16), HexD(n % 16)>>
+CRLF == <<13, 10>>
+GzHead == <<80, 79, 83, 84, 32, 47, 122, 32, 72, 84, 84, 80, 47, 49, 46, 49, 13, 10,                  \* "POST /z HTTP/1.1"
+            72, 111, 115, 116, 58, 32, 104, 13, 10>>                                                   \* "Host: h"
+           \o <<67, 111, 110, 116, 101, 110, 116, 45, 69, 110, 99, 111, 100, 105, 110, 103, 58, 32, 103, 122, 105, 112, 13, 10>>
+ClLine(n) == <<67, 111, 110, 116, 101, 110, 116, 45, 76, 101, 110, 103, 116, 104, 58, 32>> \o DecStr(n) \o CRLF
+TeLine == <<84, 114, 97, 110, 115, 102, 101, 114, 45, 69, 110, 99, 111, 100, 105, 110, 103, 58, 32>> \o Chunked \o CRLF
+GzWire(g, fr, tail) ==
+    LET enc == GzTable[g].enc
+        h == Len(enc) \div 2 IN
+    IF fr = "cl" THEN GzHead \o ClLine(Len(enc)) \o CRLF \o enc \o TAIL[tail]
+    ELSE GzHead \o TeLine \o CRLF \o HexStr(h) \o CRLF \o SubSeq(enc, 1, h) \o CRLF
+         \o HexStr(Len(enc) - h) \o CRLF \o SubSeq(enc, h + 1, Len(enc)) \o CRLF \o <<48>> \o CRLF \o CRLF \o TAIL[tail]
+
 BaseCfg == [mode |-> "server", maxHdr |-> 65536, maxBody |-> 1000000, override |-> None, decompress |-> FALSE,
-            gz |-> GzTable, head |-> FALSE, respond |-> "sync", btimeout |-> FALSE, shut |-> FALSE]
+            gz |-> <<>>, head |-> FALSE, respond |-> "sync", btimeout |-> FALSE, shut |-> FALSE]
 =============================================================================
